@@ -448,7 +448,17 @@ def check(pid, tier, replay=None):
                 continue
             o = json.load(open(p))
             oracle_stats[name] = o
-            failures += o.get("failures") or []
+            fs = o.get("failures") or []
+            # an oracle shared with another property contributes only the failure classes that
+            # concern THIS property (cfg["oracle_class_filter"]); the others are that
+            # property's business (its own check reports them, known findings included)
+            keep = (cfg.get("oracle_class_filter") or {}).get(name)
+            if keep is not None:
+                other = sorted({f["class"] for f in fs if f["class"] not in keep})
+                if other:
+                    notes.append(f"oracle {name}: failure classes left to the property that owns them: {', '.join(other)}")
+                fs = [f for f in fs if f["class"] in keep]
+            failures += fs
 
         # ---- thorough: the same oracles under the Go race detector (cfg["race_oracles"])
         if thorough and not replay and cfg.get("race_oracles"):
